@@ -9,5 +9,7 @@ echo "== demo on /repo (unchanged):"; (cd /tmp && PYTHONPATH=/repo/src /venv/bin
 echo "== demo on changed tree:"; (cd /tmp && PYTHONPATH=$W/src /venv/bin/python $S/demo.py 2>&1 | tail -1 | cut -c1-300; echo "exit ${PIPESTATUS[0]}")
 for Q in $P "$@"; do
   echo "== ./check $Q on changed tree:"
-  REDRESS_SRC=$W/src VERIF_EVIDENCE_DIR=/tmp/ev_seed_$ID /verif/check $Q 2>&1 | grep -E "^\[|^exit|^failed obligation|^VIOLATION|KNOWN|UNDECIDED|GUARD|ENGINE" | cut -c1-230 | head -12
+  REDRESS_SRC=$W/src VERIF_EVIDENCE_DIR=/tmp/ev_seed_$ID /verif/check $Q > /tmp/ev_seed_$ID.$Q.out 2>&1; echo "check exit $?"
+  grep -E "^VIOLATION|^KNOWN|^GUARD|^ENGINE" /tmp/ev_seed_$ID.$Q.out | cut -c1-230 | head -8
+  grep -E "^failed obligation|UNDECIDED" /tmp/ev_seed_$ID.$Q.out | cut -c1-230 | head -12
 done
